@@ -19,9 +19,78 @@ CONFIGS = {
     'quick': ([('mixed', ('H_X', 'M_X', 'T_X', 'O_X', 2, 3), 24)], 3),
     'thorough': ([('mixed', ('H_X', 'M_X', 'T_X', 'O_X', 3, 3), 100)], 4),
 }
-LIB_CFG = ('SPECIFICATION Spec\nCONSTANTS\n Transforms = {"A", "L", "M", "S", "T"}\n Analyses = {"U", "G", "E", "O"}\n'
+# L / L2: let substitution under two override dictionaries that name the SAME constants with different values;
+# S / S2: subcircuit expansion with the circuit's own and with caller-supplied prepare / measure definitions
+LIB_CFG = ('SPECIFICATION Spec\nCONSTANTS\n Transforms = {"A", "L", "L2", "M", "S", "S2", "T"}\n Analyses = {"U", "G", "E", "O"}\n'
            ' MaxLen = %d\n Chain = FALSE\nINVARIANT Emit\nPROPERTY InputUnchanged\n')
 OVR = {'a': 2}
+OVR2 = {'a': 1}
+
+
+def graph_print(root):
+    """Generic fingerprint of everything reachable from an object: type names, attribute names (instance dictionaries
+    and slots), container shapes and primitive values, objects numbered in traversal order.  No Jaqal knowledge: it
+    exists so that an attribute added to, or changed on, any reachable object shows up in the snapshot comparison."""
+    import hashlib
+    import types
+    seen = {}
+    h = hashlib.blake2b(digest_size=16)
+
+    def put(x):
+        h.update(x.encode('utf8', 'replace') + b';')
+
+    def walk(o, depth):
+        if o is None or isinstance(o, (bool, int, float, complex, str, bytes)):
+            put('%s=%r' % (type(o).__name__, o))
+            return
+        if id(o) in seen:
+            put('@%d' % seen[id(o)])
+            return
+        seen[id(o)] = len(seen)
+        if depth > 40:
+            put('deep')
+            return
+        if isinstance(o, (types.FunctionType, types.BuiltinFunctionType, types.MethodType, type, types.ModuleType)):
+            put('fn:%s' % getattr(o, '__qualname__', getattr(o, '__name__', '?')))
+            return
+        if isinstance(o, numpy.ndarray):
+            put('nd:%s:%s' % (o.shape, hashlib.blake2b(o.tobytes(), digest_size=8).hexdigest()))
+            return
+        if isinstance(o, dict):
+            put('dict%d{' % len(o))
+            for k, v in o.items():
+                walk(k, depth + 1)
+                walk(v, depth + 1)
+            put('}')
+            return
+        if isinstance(o, (list, tuple)):
+            put('%s%d[' % (type(o).__name__, len(o)))
+            for v in o:
+                walk(v, depth + 1)
+            put(']')
+            return
+        if isinstance(o, (set, frozenset)):
+            put('set%d' % len(o))
+            for v in sorted(o, key=repr):
+                walk(v, depth + 1)
+            return
+        put('obj:%s{' % type(o).__name__)
+        names = set(getattr(o, '__dict__', {}))
+        for klass in type(o).__mro__:
+            sl = klass.__dict__.get('__slots__', ())
+            names.update([sl] if isinstance(sl, str) else sl)
+        for nm in sorted(names):
+            if nm in ('__dict__', '__weakref__'):
+                continue
+            try:
+                v = getattr(o, nm) if nm not in getattr(o, '__dict__', {}) else o.__dict__[nm]
+            except AttributeError:
+                continue
+            put('.' + nm)
+            walk(v, depth + 1)
+        put('}')
+    walk(root, 0)
+    return h.hexdigest()
 
 
 def histories(rep, wd, maxlen):
@@ -48,6 +117,13 @@ def call(op, circ, seed):
             return project.circuit(expand_macros(circ))
         if op == 'L':
             return project.circuit(fill_in_let(circ, override_dict=dict(OVR)))
+        if op == 'L2':
+            return project.circuit(fill_in_let(circ, override_dict=dict(OVR2)))
+        if op == 'S2':
+            from . import gates
+            busy = gates.busy_gates()
+            from jaqalpaq.core.gatedef import BusyGateDefinition
+            return project.circuit(expand_subcircuits(circ, prepare_def=BusyGateDefinition('prepare_hw'), measure_def=BusyGateDefinition('measure_hw')))
         if op == 'M':
             return project.circuit(fill_in_map(circ))
         if op == 'S':
@@ -81,6 +157,7 @@ def run_history(job):
         return None
     start = passes.compress(project.circuit(shared))
     repr0 = repr(shared)
+    graph0 = graph_print(shared)
     calls = []
     for n, op in enumerate(hist):
         res_shared = call(op, shared, job['seed'] + n)
@@ -88,6 +165,7 @@ def run_history(job):
         res_fresh = call(op, fresh, job['seed'] + n)
         snap = passes.compress(project.circuit(shared))
         calls.append({'op': op, 'snap_eq': bool(shared == ref), 'snap_same_repr': repr(shared) == repr0, 'snap': snap,
+                      'snap_same_graph': graph_print(shared) == graph0,
                       'same_as_fresh': json.dumps(res_shared, sort_keys=True, default=str) == json.dumps(res_fresh, sort_keys=True, default=str)})
     return {'id': job['id'], 'kind': 'shared', 'start': start, 'calls': calls, 'text': text + ' | history: ' + ''.join(hist)}
 
@@ -127,7 +205,7 @@ def main(tier):
     rep.cov['rule'] = ('every history (all sequences with repetition of the 9 operations up to length %d) replayed on one shared '
                        'circuit object per (program, history); non-trivial = distinct (program, history) pairs with >= 2 calls '
                        'of which at least one is a transformation' % maxlen)
-    rep.cov['distinct_nontrivial'] = sum(1 for j in jobs if len(j['hist']) >= 2 and any(o in 'ALMST' for o in j['hist']))
+    rep.cov['distinct_nontrivial'] = sum(1 for j in jobs if len(j['hist']) >= 2 and any(o[0] in 'ALMST' for o in j['hist']))
     rep.cov.setdefault('exhaustive', True)
     for r in recs[0:len(recs):max(1, len(recs) // 3)][:3]:
         rep.sample({'program_and_history': r['text'], 'per_call': [[c['op'], c['snap_eq'], c['same_as_fresh']] for c in r['calls']],
